@@ -188,32 +188,32 @@ def rename_occurrences(t, f):
     return rename_term(t, f)
 
 
-def minimize_class_case(c, table):
-    """Smallest script showing that two variables of one class get two binders / different forms:
-    two variables a, b of the case's kind, one relate, value [a, b] (and [b, a], [b, b])."""
-    out = None
-    pairs = []
-    for a in range(len(c["kinds"])):
-        for b in range(len(c["kinds"])):
-            if a != b and a < len(table) and b < len(table) and table[a][0] == table[b][0] and c["kinds"][a] == c["kinds"][b] and table[a][1][0] == "Unbound":
-                pairs.append((a, b))
+def minimal_union_case(kd):
+    """Smallest script showing that two unified variables of kind kd get two binders:
+    two variables, one relate, value [a, b] (tried in both orders)."""
+    g = CGen(None, [kd, kd])
     cands = []
-    for a, b in pairs[:6]:
-        kd = c["kinds"][a]
-        g = CGen(None, [kd, kd])
-        for rel in ((0, 1), (1, 0)):
-            for items in ((0, 1), (1, 0)):
-                cands.append({"nu": 0, "kinds": [kd, kd], "univ": [0, 0], "rels": [(g.var_term(rel[0]), g.var_term(rel[1]))],
-                              "term": N("HList", [g.var_term(items[0]), g.var_term(items[1])])})
-    if not cands:
-        return None
+    for rel in ((0, 1), (1, 0)):
+        for items in ((0, 1), (1, 0)):
+            cands.append({"nu": 0, "kinds": [kd, kd], "univ": [0, 0], "rels": [(g.var_term(rel[0]), g.var_term(rel[1]))],
+                          "term": N("HList", [g.var_term(items[0]), g.var_term(items[1])])})
     outs = core.run_harness("canon", [case_sx(x) for x in cands], args=["canon"], shards=1)
     for x, o in zip(cands, outs):
         res = parse_result(o)
-        if res and not is_panic(res["canon"]) and len(res["canon"][1]) != 1:
+        if res and not is_panic(res["canon"]) and "Ok" in res["opres"] and len(res["canon"][1]) != 1:
             return {"case": sx.to_sexp(case_sx(x)), "canonical": sx.to_sexp(Pair(res["canon"][1], res["canon"][2])),
                     "expected": "one binder: the two variables were unified, the value is [^0.0, ^0.0]"}
-    return out
+    return None
+
+
+def minimize_class_case(c, table):
+    for a in range(min(len(c["kinds"]), len(table))):
+        for b in range(a + 1, min(len(c["kinds"]), len(table))):
+            if table[a][0] == table[b][0] and c["kinds"][a] == c["kinds"][b] and table[a][1][0] == "Unbound":
+                m = minimal_union_case(c["kinds"][a])
+                if m:
+                    return m
+    return None
 
 
 def syntactic_vars(t, acc=None):
@@ -375,8 +375,13 @@ def property_on_impl(ctx, tag, csx, res, viol):
     cls = classes_in(term, table)
     roots = [table[f[1]][0] if f[1] < len(table) else f[1] for f in frees]
     if len(set(roots)) != len(roots):
+        dup = [f for f, rt in zip(frees, roots) if roots.count(rt) > 1]
+        vk = dup[0][0]
+        kd = ("T", vk[1]) if isinstance(vk, tuple) else (("L",) if vk == "VLt" else ("C",))
+        small = minimal_union_case(kd) if viol[0] < 4 else None
         bad("free_vars lists the same unification class twice (two variables unified before canonicalization got two binders)",
-            frees=frees, classes_of_free_vars=roots, canonical=Pair(bs, val))
+            frees=frees, classes_of_free_vars=roots, canonical=Pair(bs, val), minimal_case=small["case"] if small else "(not reduced)",
+            minimal_canonical=small["canonical"] if small else "")
     elif len(bs) != len(cls):
         bad("the number of canonical binders differs from the number of distinct unbound classes occurring in the value",
             binders=bs, classes=[c[0] for c in cls], canonical=Pair(bs, val))
